@@ -80,8 +80,12 @@ def json_values(max_leaves=25):
         max_leaves=max_leaves)
 
 
-payloads = st.one_of(json_values(), json_values(8), package_record,
-                     st.dictionaries(strings, json_values(6), max_size=5))
+# a payload that itself looks like a signed envelope (counter-signing, wrapping twice)
+envelope_shaped = st.builds(lambda sigs, signed: {"signatures": sigs, "signed": signed},
+                            st.sampled_from([{}, {"ab" * 32: {"signature": "cd" * 64}}]), st.one_of(package_record, json_values(5)))
+
+payloads = st.one_of(json_values(), json_values(8), package_record, package_record,
+                     st.dictionaries(strings, json_values(6), max_size=5), envelope_shaped)
 
 
 def deep_value(depth, leaf=1):
